@@ -48,5 +48,8 @@ def gen_harness(facts, outdir):
     w("specwords.def", "".join("SPECWORD(%s)\n" % cq(x) for x in facts["words"]["std_specifiers"]["rows"]))
     w("qualwords.def", "".join("QUALWORD(%s)\n" % cq(x) for x in facts["words"]["std_qualifiers"]["rows"]))
     w("knownwords.def", "".join("KNOWNWORD(%s)\n" % cq(x) for x in facts["words"]["known_words"]["rows"]))
+    import gen_fsweep
+    plan, skipped = gen_fsweep.generate(facts, outdir)
+    w("fsweep_plan.json", json.dumps({"plan": plan, "skipped": skipped}, indent=1))
     leaves = [k for k, v in facts["reflect"].items() if v["is_node"] and v["code"] >= 0]
     w("leaves.def", "".join("LEAF(%s)\n" % k for k in leaves))
